@@ -41,20 +41,15 @@ Theorem C18_sites_classified : forall st, In st sites -> classified st = true.
 Proof. exact sites_classified. Qed.
 Print Assumptions C18_sites_classified.
 
-(* ... and every site that prints declaration text escapes it.  FALSE of the code: *)
-Definition C18_sites_escaped_statement : Prop :=
-  forall st, In st sites -> reads_source_text st = true -> escaped st = true.
+(* ... and every site that prints declaration text escapes it: by the `e` filter, or -- in element
+   content -- because the printed property (FortranVariable.full_type / full_declaration) escapes the
+   source text it is built from; all sites, no exception *)
+Theorem C18_sites_escaped : forall st,
+  In st sites -> reads_source_text st = true -> escaped st = true.
+Proof. exact sites_escaped. Qed.
+Print Assumptions C18_sites_escaped.
 
-Theorem C18_sites_escaped_partial : forall st,
-  In st sites -> reads_source_text st = true -> site_excused st = false -> escaped st = true.
-Proof. exact sites_escaped_partial. Qed.
-Print Assumptions C18_sites_escaped_partial.
-
-Theorem C18_known_sites_exact : forall key, In key (known_unescaped ++ inert_by_construction) ->
-  exists st, find_site key sites = Some st /\ reads_source_text st = true /\ escaped st = false.
-Proof. exact known_sites_unescaped. Qed.
-Print Assumptions C18_known_sites_exact.
-
-Theorem C18_sites_escaped_refuted : ~ C18_sites_escaped_statement.
-Proof. exact sites_escaped_refuted. Qed.
-Print Assumptions C18_sites_escaped_refuted.
+(* the text-level escape of those properties is inert in element content *)
+Theorem C18_escape_text_inert : forall x, render_text (escape_text x) = (x, 0).
+Proof. exact render_escape_text. Qed.
+Print Assumptions C18_escape_text_inert.
